@@ -274,6 +274,13 @@ def leaf_objects():
     L["TrafficLight"] = (lambda: spec.mk_light({"id": 11, "position": [19.0, 4.5], "cycle": [("RED", 2)]}), lambda t: {k: v for k, v in snap.light(t).items() if k != "color"}, inplace)
     L["GoalRegion"] = (lambda: spec.mk_goal({"states": [spec.goal_state(position=["rect", 4.0, 2.0, 15.0, 1.5, 0.5], orientation=["aiv", -0.5, 0.5]),
                                                         spec.goal_state(position=["circle", 2.0, 18.0, 1.0], orientation=["aiv", 4.0, 6.0])], "lanelets": None}), snap.goal, inplace)
+    # trajectories whose states mix exact and uncertain positions / orientations (the attribute SETS are equal, the value kinds are not)
+    mixed = lambda order: spec.mk_prediction({"k": "trajectory", "t0": 1, "shape": ["rect", 4.0, 2.0, 0.0, 0.0, 0.0], "states": [
+        {"cls": "KSState", "attrs": {"time_step": 1 + i, "position": pos, "orientation": ori, "velocity": 3.0, "steering_angle": 0.0}} for i, (pos, ori) in enumerate(order)]})
+    ex, r_, c_, p_ = ([2.0, 1.0], 0.3), (["rect", 2.0, 1.0, 4.0, 1.5, 0.2], ["aiv", -0.1, 0.5]), (["circle", 0.8, 6.0, 2.0], 0.6), (["poly", [[7.0, 1.0], [9.0, 1.0], [8.0, 2.5]]], ["aiv", 2.9, 3.4])
+    L["Trajectory-exact-then-uncertain"] = (lambda: mixed([ex, r_, c_, p_]).trajectory, snap.trajectory, inplace)
+    L["Trajectory-uncertain-then-exact"] = (lambda: mixed([r_, ex, p_, ex]).trajectory, snap.trajectory, inplace)
+    L["TrajectoryPrediction-mixed"] = (lambda: mixed([ex, c_, ex, r_]), snap.prediction, inplace)
     # goal states that constrain an orientation (or only a velocity) without a position
     L["GoalRegion-no-position"] = (lambda: spec.mk_goal({"states": [spec.goal_state(orientation=["aiv", -0.5, 0.5]), spec.goal_state(velocity=["iv", 0.0, 5.0]),
                                                                     spec.goal_state(position=["circle", 2.0, 18.0, 1.0], orientation=["aiv", 4.0, 6.0]),
